@@ -728,9 +728,31 @@ def mk_dtype(name):
     return lf
 
 
+def np_isin(I, element, test_elements, **kw):
+    """numpy.isin(a, test): elementwise membership.  numpy converts `test` with asarray: a Python SET becomes ONE object element,
+    so no integer of `a` equals it and the result is all False (documented: "isin does not work on sets")."""
+    _use("isin")
+    a = as_arr(I, element)
+    if kw.get("invert"):
+        raise Unsupported("np.isin(invert=True)")
+    if isinstance(test_elements, (set, frozenset)) or hasattr(test_elements, "pyvc_toset"):
+        I.path.assumptions_used.add("numpy.isin with a set as second argument is all False (numpy documentation)")
+        return Arr(a.n, lambda k: z3.BoolVal(False), "bool")
+    if isinstance(test_elements, (list, tuple)):
+        items = [to_term(x) for x in test_elements]
+        fa = a.at
+        return Arr(a.n, lambda k: z3.Or(*[fa(k) == x for x in items]) if items else z3.BoolVal(False), "bool")
+    if isinstance(test_elements, Arr):
+        t = test_elements
+        fa = a.at
+        return Arr(a.n, lambda k: spec.exists(0, t.n, lambda j: t.at(j) == fa(k)), "bool")
+    raise Unsupported("np.isin with test elements of type " + type(test_elements).__name__)
+
+
 def install(engine):
     F = LibFunc
     np = LibNS("numpy", {
+        "isin": F("np.isin", np_isin),
         "floor": F("np.floor", np_floor), "ceil": F("np.ceil", np_ceil),
         "searchsorted": F("np.searchsorted", np_searchsorted),
         "arange": F("np.arange", np_arange), "linspace": F("np.linspace", np_linspace),
